@@ -152,6 +152,7 @@ class RecEM(AsyncEventManager):
             e = R.canon_event(event)
             # what the writer will actually receive: the event's own time (ms) and thread_id, un-canonicalised (C05.sched)
             ctx.fire_raw.append([e["t"], e.get("tid")])
+            ctx.fire_names.append(event.__class__.get_name())
             e["t"] = 0
             th = ctx.namer("other")
             if "tid" in e:
@@ -219,6 +220,55 @@ class RecBackend(ReportingBackend, ReportingSessionBuilderMixin):
         return RecSession(self._ctx)
 
 
+class SubsetSession(ReportingSession):
+    """a reporting session whose `on_<event>` handlers are set PER INSTANCE (as a backend session does when it enables its
+    handlers according to its configuration): ONE class for every instance of every run of the process, different subsets
+    of the event names per instance.  `got` = [event index, event name] of every call, in call order (handler thread)"""
+
+    def __init__(self, names):
+        self.names, self.got = list(names), []
+        for n in names:
+            setattr(self, "on_" + n, self._handle)
+
+    def _handle(self, event):
+        self.got.append([getattr(event, "_lccverif_k", None), event.__class__.get_name()])
+
+
+class SubsetBackend(ReportingBackend, ReportingSessionBuilderMixin):
+    def __init__(self, names):
+        self.session = SubsetSession(names)
+
+    def get_name(self):
+        return "lccverif-subset"
+
+    def create_reporting_session(self, report_dir, report, parallel, report_saving_strategy):
+        return self.session
+
+
+def event_names():
+    """names of the event classes of the tree under test, in the order `add_listener` walks them"""
+    return [ec.get_name() for ec in EventManager._get_event_classes()]
+
+
+# per-instance handler sets by name: "starts" < "starts+ends" < "all"; the steps and records only; the results only
+def listener_events(shape):
+    names = event_names()
+    if shape == "all":
+        return names
+    if shape == "starts":
+        return [n for n in names if n.endswith("_start")]
+    if shape == "starts+ends":
+        return [n for n in names if n.endswith("_start") or n.endswith("_end")]
+    if shape == "records":
+        return [n for n in names if n.startswith("log") or n.startswith("check") or n.startswith("step")]
+    if shape == "tests":
+        return [n for n in names if n.startswith("test_") and "session" not in n]
+    raise ValueError(shape)
+
+
+LISTENER_SHAPES = ["all", "starts", "starts+ends", "records", "tests"]
+
+
 def extract_graph(tasks):
     idx = {id(t): i for i, t in enumerate(tasks)}
     out = []
@@ -270,7 +320,7 @@ class _ConsoleSys:
 
 
 def run_project(project, strategy="off", gate_seed=0, interrupt_at=None, backend_fault=None, watchdog=30.0,
-                gate_watchdog=10.0, stall=8.0, builder=None, console=True):
+                gate_watchdog=10.0, stall=8.0, builder=None, console=True, listeners=None):
     """
     strategy      "off" | "fifo" | "lifo" | "random"   gate controller (obs.schedrec)
     interrupt_at  None | ["get", k]                    KeyboardInterrupt instead of the k-th blocking completed-queue get
@@ -280,6 +330,9 @@ def run_project(project, strategy="off", gate_seed=0, interrupt_at=None, backend
     watchdog      seconds for the WHOLE run; beyond it the case is aborted (state dumped, gates released) with outcome {"hang": true}
     builder       None (run/build.py: objects built directly) | callable (project, interp) -> (suites, fixture registry), e.g. the
                   declared route of props/_declrun.py (source + decorators + the real class loader)
+    listeners     None | list of shapes (LISTENER_SHAPES): further reporting sessions, all of ONE class (`SubsetSession`) whose
+                  `on_<event>` handlers are set per instance, attached after the recording backend in the given order;
+                  obs["listeners"] = [{"shape", "events", "got": [[event index, event name]]}], obs["fire_names"]
     console       attach the REAL console backend too (as `lcc run` does by default), after the recording backend: its handlers run
                   on the same event-handling thread as the report writer's — sequential flavour with 1 worker thread, parallel
                   flavour otherwise; what it prints is discarded (module globals `sys` / `print` of console.py replaced for the run)
@@ -298,8 +351,9 @@ def run_project(project, strategy="off", gate_seed=0, interrupt_at=None, backend
     ctx.rec, ctx.namer, ctx.fault = rec, namer, backend_fault
     ctx.att_names, ctx.nfired, ctx.order_errors, ctx.pending_failure_at = [], 0, [], None
     ctx.fire_raw = []
+    ctx.fire_names = []
     interp = Interp(rec, namer)
-    side = {"graph": None, "tasks": None, "outcome": None, "session": None, "deaths": []}
+    side = {"graph": None, "tasks": None, "outcome": None, "session": None, "deaths": [], "listeners": []}
 
     def run_tasks_wrapper(tasks, context, nb_threads=1):
         with rec.cv:
@@ -349,6 +403,10 @@ def run_project(project, strategy="off", gate_seed=0, interrupt_at=None, backend
         em = EM.load()
         side["em"] = em
         backends = [RecBackend(ctx)]
+        for shape in listeners or []:
+            b = SubsetBackend(listener_events(shape))
+            side["listeners"].append((shape, b.session))
+            backends.append(b)
         if console:
             backends.append(CON.ConsoleBackend())
         session = Session.create(em, backends, tmp, None, nb_threads=n)
@@ -399,6 +457,9 @@ def run_project(project, strategy="off", gate_seed=0, interrupt_at=None, backend
             "thread_deaths": list(side["deaths"]), "released": [list(x) if isinstance(x, (list, tuple)) else x for x in rec.released],
             "gate_watchdog": rec.watchdog_fired, "order_errors": list(ctx.order_errors), "nb_events": ctx.nfired,
         })
+        if listeners:
+            obs["fire_names"] = list(ctx.fire_names)
+            obs["listeners"] = [{"shape": shape, "events": list(ls.names), "got": list(ls.got)} for shape, ls in side["listeners"]]
         session = side["session"]
         obs["report"] = None
         if session is not None:
